@@ -302,7 +302,7 @@ def run_search(b, sim, seed, tier, budget_s, mode='search', nworkers=None, count
     return merged, viols, crashes
 
 
-def run_replay(b, sim, scenarios, verbose=False, timeout=600, parallel=None):
+def run_replay(b, sim, scenarios, verbose=False, timeout=600, parallel=None, env=None):
     """Execute explicit scenarios (list) in fresh worker processes; returns list of result dicts (None = crashed)."""
     binary = b.binary(sim)
     wd = b.scratch('%s-replay-%d' % (sim, os.getpid()))
@@ -320,6 +320,8 @@ def run_replay(b, sim, scenarios, verbose=False, timeout=600, parallel=None):
         extra = {'VERIF_MODE': 'replay', 'VERIF_SCENARIOS': sp, 'VERIF_OUT': os.path.join(wd, 'out.%d' % w)}
         if verbose:
             extra['VERIF_VERBOSE'] = 1
+        if env:
+            extra.update(env)
         procs.append((w, spawn(binary, sim, extra, os.path.join(wd, 'err.%d' % w))))
     results = [None] * n
     deadline = time.time() + timeout
@@ -344,7 +346,7 @@ def run_replay(b, sim, scenarios, verbose=False, timeout=600, parallel=None):
             # scenarios after the crashed one were not executed: run them separately
             rest = [(i, sc) for i, sc in chunks[w] if i not in done and i != begun[-1]]
             if rest:
-                sub = run_replay(b, sim, [sc for _, sc in rest], verbose, timeout, 1)
+                sub = run_replay(b, sim, [sc for _, sc in rest], verbose, timeout, 1, env)
                 for (i, _), r in zip(rest, sub):
                     if r is not None:
                         r['id'] = i
@@ -399,14 +401,14 @@ def gen_scenario(b, sim, run_seed, tier):
 SHRINK_LISTS = ['faults', 'inject', 'ops', 'actors', 'streams', 'reqs', 'segs', 'events']
 
 
-def shrink(b, sim, scenario, sig, budget=400):
+def shrink(b, sim, scenario, sig, budget=400, env=None):
     """Delta debugging over the scenario's lists while the same signature persists."""
     tried = [0]
     best = scenario
 
     def test_many(cands):
         tried[0] += len(cands)
-        rs = run_replay(b, sim, cands, timeout=900)
+        rs = run_replay(b, sim, cands, timeout=900, env=env)
         return [r is not None and r.get('sig') == sig for r in rs]
 
     for key in SHRINK_LISTS:
@@ -485,11 +487,11 @@ def tree_desc():
         return {}
 
 
-def write_replay(prop, sim, sig, detail, scenario, trace, seed, shrunk_from=None):
+def write_replay(prop, sim, sig, detail, scenario, trace, seed, shrunk_from=None, env=None):
     d = os.path.join(VERIF, 'replays')
     os.makedirs(d, exist_ok=True)
     body = {'property': prop, 'sim': sim, 'signature': sig, 'detail': detail, 'trace': trace, 'scenario': scenario,
-            'verif_seed': seed, 'tree': tree_desc(), 'shrunk_from': shrunk_from,
+            'verif_seed': seed, 'tree': tree_desc(), 'shrunk_from': shrunk_from, 'env': env or {},
             'replay_cmd': 'bin/verifctl replay <this file>'}
     h = hashlib.sha256(json.dumps([sig, scenario], sort_keys=True).encode()).hexdigest()[:10]
     p = os.path.join(d, '%s-%s-%s.json' % (prop, seed, h))
@@ -498,9 +500,9 @@ def write_replay(prop, sim, sig, detail, scenario, trace, seed, shrunk_from=None
     return p
 
 
-def confirm_and_minimise(b, prop, sim, sig, scenario, seed, do_shrink=True):
+def confirm_and_minimise(b, prop, sim, sig, scenario, seed, do_shrink=True, env=None):
     """Re-execute in a fresh process; shrink; return (sig, replay path) or None when not reproducible."""
-    r = run_replay(b, sim, [scenario])[0]
+    r = run_replay(b, sim, [scenario], env=env)[0]
     if r is None or r.get('sig') != sig:
         got = None if r is None else r.get('sig')
         # a crash is reported by the worker's death, its signature comes from the replay
@@ -512,13 +514,13 @@ def confirm_and_minimise(b, prop, sim, sig, scenario, seed, do_shrink=True):
     size0 = sum(len(scenario.get(k) or []) for k in SHRINK_LISTS if isinstance(scenario.get(k), list))
     small, tried = scenario, 0
     if do_shrink:
-        small, tried = shrink(b, sim, scenario, sig, budget=int(os.environ.get('VERIF_SHRINK_BUDGET', '300')))
+        small, tried = shrink(b, sim, scenario, sig, budget=int(os.environ.get('VERIF_SHRINK_BUDGET', '300')), env=env)
     size1 = sum(len(small.get(k) or []) for k in SHRINK_LISTS if isinstance(small.get(k), list))
-    r2 = run_replay(b, sim, [small])[0]
+    r2 = run_replay(b, sim, [small], env=env)[0]
     if r2 is None or r2.get('sig') != sig:
         small, r2 = scenario, r
     path = write_replay(prop, sim, sig, r2.get('detail', ''), small, r2.get('trace'), seed,
-                        {'list_items_before': size0, 'after': size1, 'executions': tried})
+                        {'list_items_before': size0, 'after': size1, 'executions': tried}, env=env)
     return sig, path, r2.get('detail', '')
 
 
@@ -561,7 +563,7 @@ def check(prop, tier, seed):
             (prop, sim, mode, merged['evaluations'], merged['nontrivial'], nshapes, len(viols), len(crashes), merged['wall_ms'] / 1000))
         for v in viols:
             if v['sig'] not in findings:
-                findings[v['sig']] = (sim, v['scenario'], v.get('detail', ''))
+                findings[v['sig']] = (sim, v['scenario'], v.get('detail', ''), part.get('env'))
         for c in crashes:
             if c['last'] is None:
                 infra.append('worker %d of %s died before its first run: %s' % (c['worker'], sim, c['stderr'][-1500:]))
@@ -576,12 +578,12 @@ def check(prop, tier, seed):
                 continue
             sig = crash_sig(c['stderr'], c['hung'])
             if sig not in findings:
-                findings[sig] = (sim, sc, crash_detail(c['stderr']))
+                findings[sig] = (sim, sc, crash_detail(c['stderr']), part.get('env'))
     # confirm, shrink, classify
     violations, known = [], []
-    for sig, (sim, sc, detail) in findings.items():
+    for sig, (sim, sc, detail, fenv) in findings.items():
         try:
-            res = confirm_and_minimise(b, prop, sim, sig, sc, seed)
+            res = confirm_and_minimise(b, prop, sim, sig, sc, seed, env=fenv)
         except Infra as e:
             infra.append(str(e))
             continue
@@ -589,9 +591,20 @@ def check(prop, tier, seed):
             infra.append('a reported violation (%s) did not reproduce in a fresh process - harness determinism problem' % sig)
             continue
         sig2, path, det = res
-        k = match_known(prop, sig2, json.load(open(path))['scenario'])
+        scn = json.load(open(path))['scenario']
+        k = match_known(prop, sig2, scn)
         if k:
             known.append((k, sig2, path))
+            continue
+        # a known finding of ANOTHER property that ended the run (typically a crash): neither passed nor violated here
+        other = None
+        for kk in load_known():
+            if kk.get('status') == 'known' and kk.get('property') != prop and match_known(kk['property'], sig2, scn):
+                other = kk
+                break
+        if other:
+            agg['blocked_by'][other['id']] = agg['blocked_by'].get(other['id'], 0) + 1
+            log('[%s] run ended by known finding %s of %s: not counted' % (prop, other['id'], other['property']))
         else:
             violations.append((sig2, path, det))
     wall = time.time() - t0
@@ -645,7 +658,7 @@ def check(prop, tier, seed):
 def replay(path, verbose):
     body = json.load(open(path))
     b = Builder('replay-' + body['sim'], [body['sim']])
-    r = run_replay(b, body['sim'], [body['scenario']], verbose=verbose)[0]
+    r = run_replay(b, body['sim'], [body['scenario']], verbose=verbose, env=body.get('env') or None)[0]
     if r is None:
         print('INFRA: replay produced no result')
         return 2
